@@ -18,6 +18,7 @@ import (
 	_ "verif/harness/c05"
 	_ "verif/harness/c06"
 	_ "verif/harness/c07"
+	_ "verif/harness/c09"
 	_ "verif/harness/c10"
 	_ "verif/harness/c11"
 	_ "verif/harness/c12"
